@@ -231,6 +231,16 @@ def write_events(body, trail, program=None):
 
 
 
+def contradicts_constants(conds):
+    """a path that takes the False edge of a constant-true condition (or vice versa) is infeasible"""
+    for c in conds:
+        if c[0] == "bool":
+            t = T.strip(c[1])
+            if t[0] == "const" and isinstance(t[1], bool) and t[1] != c[2]:
+                return True
+    return False
+
+
 def path_conds(program, body, S, trail):
     """Canonical branch conditions taken along one block path (see q.canon_cond).  Values are resolved along the path itself
     (PathSlicer), so a local assigned differently on two branches has the value of the branch the path took."""
